@@ -140,6 +140,30 @@ fn build_dir(job: &Value, scratch: &Path) -> std::io::Result<(PathBuf, PathBuf)>
             }
         }
     }
+    if has(job, "unicode_texts") {
+        // the free-text leaves of <DatosGenerales> get characters of 2, 3 and 4 UTF-8 bytes
+        // (the last kind needs a surrogate pair when JSON-escaped)
+        if let Ok(rd) = std::fs::read_dir(&proj) {
+            for e in rd.flatten() {
+                let p = e.path();
+                if p.extension().map(|x| x.to_string_lossy().to_lowercase() == "ctehexml").unwrap_or(false) {
+                    if let Ok(t) = std::fs::read_to_string(&p) {
+                        let mut out = t.clone();
+                        for tag in ["nomPro", "autor", "autorEmail", "nomEdif", "dirCalle", "locSel"] {
+                            let open = format!("<{}>", tag);
+                            let close = format!("</{}>", tag);
+                            if let (Some(a), Some(b)) = (out.find(&open), out.find(&close)) {
+                                if a < b {
+                                    out.insert_str(b, " ñ € \u{1D538} \u{1F600}");
+                                }
+                            }
+                        }
+                        let _ = std::fs::write(&p, out);
+                    }
+                }
+            }
+        }
+    }
     if has(job, "extra_files") {
         std::fs::write(proj.join("LEEME.txt"), b"notas del proyecto\n{\"no\": \"es el modelo\"}\n")?;
         std::fs::write(proj.join("salida_anterior.json"), b"{\"meta\": {}}\n")?;
